@@ -22,7 +22,8 @@ def composite_change(idx: Index) -> ClassInfo:
         if not (do and undo):
             continue
         loops = [n for n in walk_local(do.node) if isinstance(n, ast.For)]
-        if any(any(is_self_attr(x) for x in ast.walk(l.iter)) for l in loops):
+        # (`changes = self.changes` ... `for change in changes`: a local bound once is read through)
+        if any(any(is_self_attr(x) for x in ast.walk(_subst_single_locals(do.node, l.iter))) for l in loops):
             return c
     raise AnalysisError("anchor=role:composite-change (class with do/undo iterating a list of sub-changes) not found")
 
@@ -1926,8 +1927,16 @@ def identifier_char_rule(ctx, res, rule: str, modules, rest: bool = False, occur
         for x in walk_local(gw.node):
             if isinstance(x, ast.Subscript) and isinstance(x.slice, ast.Slice):
                 for b in (x.slice.lower, x.slice.upper):
-                    for c in ast.walk(b) if b is not None else ():
-                        if isinstance(c, ast.Call) and is_self_attr(c.func) and c.func.attr in wf.methods:
+                    # (`word_start = self._find_word_start(o)` ... `raw[word_start : word_end + 1]`: locals bound once are read through)
+                    def outermost(e):
+                        """the finder's methods called in e, not those called only to compute an argument of another one"""
+                        if isinstance(e, ast.Call) and is_self_attr(e.func) and e.func.attr in wf.methods:
+                            yield e
+                            return
+                        for ch in ast.iter_child_nodes(e):
+                            yield from outermost(ch)
+                    for c in outermost(_subst_single_locals(gw.node, b)) if b is not None else ():
+                        if wf.methods[c.func.attr] not in ends:
                             ends.append(wf.methods[c.func.attr])
         if len(ends) < 2:
             raise AnalysisError(f"anchor=_RealFinder.get_word_at: the two ends of the word are not found by two methods of the finder ({[e.name for e in ends]})")
@@ -2255,8 +2264,16 @@ def _unbounded_forward_scans(tree: ast.AST):
                 continue
             i = c.slice.id
             inc = any(isinstance(x, ast.AugAssign) and isinstance(x.target, ast.Name) and x.target.id == i and isinstance(x.op, ast.Add) for st in w.body for x in ast.walk(st))
-            bounded = any(isinstance(k, ast.Compare) and any(isinstance(y, ast.Name) and y.id == i for y in ast.walk(k))
-                          and any(isinstance(y, ast.Call) and call_name(y) == "len" for y in ast.walk(k)) for k in ast.walk(w.test))
+            # `i < len(s)`, or `i < n` for whatever n stands for (`n = len(s)` hoisted): an upper bound on the index in the test
+            def upper(k) -> bool:
+                terms = [k.left] + list(k.comparators)
+                for a, op, b in zip(terms, k.ops, terms[1:]):
+                    a_i = any(isinstance(y, ast.Name) and y.id == i for y in ast.walk(a))
+                    b_i = any(isinstance(y, ast.Name) and y.id == i for y in ast.walk(b))
+                    if (a_i and not b_i and isinstance(op, (ast.Lt, ast.LtE, ast.NotEq))) or (b_i and not a_i and isinstance(op, (ast.Gt, ast.GtE, ast.NotEq))):
+                        return True
+                return False
+            bounded = any(isinstance(k, ast.Compare) and upper(k) for k in ast.walk(w.test))
             if inc and not bounded:
                 out.append((w, c))
                 break
@@ -2297,3 +2314,65 @@ def bounded_scan_rule(ctx, res, rule: str, prefix: str = "rope.") -> None:
                      "go-to-definition or a refactoring at that offset ends in an internal error instead of an answer or a refusal", function=fn.qualname if fn else None)
     res.analysed[f"{rule}:while loops scanned"] = n_loops
     res.add(rule, "forward-scans|bounded-by-the-length", n == 0, "rope/", f"{n_loops} while loops: " + (f"{n} forward scan(s) by index without a bound" if n else "every forward scan by index compares the index with the length"))
+
+
+# ---------------------------------------------------------------------------------------------------------------------
+# `next((E for v in IT if C), D)` read as the loop it abbreviates
+
+def desugar_next(fn_node: ast.AST) -> ast.AST:
+    """A shallow copy of the function in which every statement `T = next((E for v in IT if C1 if C2), D)` (or `return next(...)`) is
+    replaced by
+        for v in IT:                       for v in IT:
+            if C1:                             if C1:
+                if C2:                             if C2:
+                    T = E                              return E
+                    break                      return D
+        else:
+            T = D
+    The sub-expressions E, IT, C*, D are the SAME node objects as in the original, so a rule that has found a condition in the
+    function finds it again among the guards of the CFG built on the copy."""
+    import copy
+
+    def rewrite(stmts):
+        out = []
+        for st in stmts:
+            st2 = copy.copy(st)
+            for fld in ("body", "orelse", "finalbody"):
+                v = getattr(st2, fld, None)
+                if isinstance(v, list) and v and isinstance(v[0], ast.stmt):
+                    setattr(st2, fld, rewrite(v))
+            if getattr(st2, "handlers", None):
+                hs = []
+                for h in st2.handlers:
+                    h2 = copy.copy(h)
+                    h2.body = rewrite(h.body)
+                    hs.append(h2)
+                st2.handlers = hs
+            val = getattr(st2, "value", None)
+            if isinstance(st2, (ast.Assign, ast.Return)) and isinstance(val, ast.Call) and isinstance(val.func, ast.Name) and val.func.id == "next" \
+                    and len(val.args) in (1, 2) and isinstance(val.args[0], ast.GeneratorExp) and len(val.args[0].generators) == 1 and not val.keywords \
+                    and (isinstance(st2, ast.Return) or (len(st2.targets) == 1 and isinstance(st2.targets[0], ast.Name))):
+                g = val.args[0]
+                comp = g.generators[0]
+                dflt = val.args[1] if len(val.args) == 2 else None
+                if isinstance(st2, ast.Return):
+                    hit = [ast.copy_location(ast.Return(value=g.elt), st2)]
+                    miss = [ast.copy_location(ast.Return(value=dflt), st2)] if dflt is not None else [ast.copy_location(ast.Raise(exc=ast.Name(id="StopIteration", ctx=ast.Load()), cause=None), st2)]
+                else:
+                    hit = [ast.copy_location(ast.Assign(targets=st2.targets, value=g.elt), st2), ast.copy_location(ast.Break(), st2)]
+                    miss = [ast.copy_location(ast.Assign(targets=st2.targets, value=dflt), st2)] if dflt is not None else [ast.copy_location(ast.Raise(exc=ast.Name(id="StopIteration", ctx=ast.Load()), cause=None), st2)]
+                body = hit
+                for c in reversed(comp.ifs):
+                    body = [ast.copy_location(ast.If(test=c, body=body, orelse=[]), st2)]
+                loop = ast.copy_location(ast.For(target=comp.target, iter=comp.iter, body=body, orelse=[] if isinstance(st2, ast.Return) else miss), st2)
+                out.append(loop)
+                if isinstance(st2, ast.Return):
+                    out.extend(miss)
+                continue
+            out.append(st2)
+        return out
+
+    new = copy.copy(fn_node)
+    new.body = rewrite(fn_node.body)
+    ast.fix_missing_locations(new)
+    return new
